@@ -92,6 +92,15 @@ GROUPS = [("build", ), ("shape", ), ("op-dtype", "dense-dtype"), ("product-dtype
           ("matvec", "matmat", "to_dense", "densify", "generic-dense", "left-product")]
 
 
+def builds_identity(c):
+    """Does this factor spec build an `Identity` instance?  (I.T, I.H and annotated I are still Identity objects, which `@` drops.)"""
+    if c["k"] == "Identity":
+        return True
+    if c["k"] == "Annot" or (c["k"] in ("Transpose", "Adjoint") and c.get("via") == "fn"):
+        return builds_identity(c["arg"])
+    return False
+
+
 def run_case(ctx, case):
     node = case["spec"]
     ks = R.kinds(node)
@@ -118,7 +127,7 @@ def run_case(ctx, case):
         culprit = blame(node, lambda nd: any(not evaluate(o, nd, case, ctx)[0] for o in group))
         preds = leaf_preds(culprit)
         if culprit["k"] == "Product" and culprit.get("via") == "fn":
-            preds["identity_factor"] = any(c["k"] == "Identity" for c in culprit["args"])
+            preds["identity_factor"] = any(builds_identity(c) for c in culprit["args"])
         if oracle in ("product-dtype", ):
             preds["operand_dtype_differs"] = True
         ctx.check(oracle, False, site=culprit["k"], preds=preds,
